@@ -71,6 +71,17 @@ pub struct Totals {
 /// progress heartbeat used by the watchdog
 pub static HEARTBEAT: [AtomicU64; THREADS] = [const { AtomicU64::new(0) }; THREADS];
 pub static CURRENT: Mutex<Vec<String>> = Mutex::new(Vec::new());
+/// item index + 1 each worker thread is processing (0 = idle)
+pub static CUR_ITEM: [AtomicU64; THREADS] = [const { AtomicU64::new(0) }; THREADS];
+/// describes item `idx` of the sweep that is running (text, replay json); set by the checks so that
+/// a call that never returns can be reported as a violation with a reproducible scenario
+pub type Describe = std::sync::Arc<dyn Fn(u64) -> (String, Value) + Send + Sync>;
+pub static DESCRIBE: Mutex<Option<Describe>> = Mutex::new(None);
+pub static PROPERTY: Mutex<String> = Mutex::new(String::new());
+
+pub fn set_describe(d: Option<Describe>) {
+    *DESCRIBE.lock().unwrap() = d;
+}
 pub static DONE: AtomicBool = AtomicBool::new(false);
 
 /// Run `f(index, local)` for every index in 0..total on THREADS threads (dynamic chunks).
@@ -96,9 +107,11 @@ where
                     }
                     let hi = (lo + chunk).min(total);
                     for i in lo..hi {
+                        CUR_ITEM[t].store(i + 1, Ordering::Relaxed);
                         f(i, &mut local);
                         HEARTBEAT[t].fetch_add(1, Ordering::Relaxed);
                     }
+                    CUR_ITEM[t].store(0, Ordering::Relaxed);
                 }
                 results.lock().unwrap().push(local);
             });
@@ -331,11 +344,32 @@ pub fn start_watchdog(secs: u64) {
                 last = now;
             }
             if stale >= secs {
-                eprintln!("WATCHDOG: no progress for {} s; scenarios in flight:", secs);
-                for s in CURRENT.lock().unwrap().iter() {
-                    eprintln!("  {}", s);
+                // A call into the subject that never returns (and never calls the source, else the
+                // per-call budget would have fired) is a violation in its own right: report the item
+                // every stuck worker is processing.
+                let describe = DESCRIBE.lock().unwrap().clone();
+                let prop = PROPERTY.lock().unwrap().clone();
+                let stuck: Vec<u64> = CUR_ITEM.iter().map(|c| c.load(Ordering::Relaxed)).filter(|c| *c > 0).map(|c| c - 1).collect();
+                match describe {
+                    Some(d) if !prop.is_empty() && !stuck.is_empty() => {
+                        std::fs::create_dir_all("/verif/replays").ok();
+                        for idx in stuck.iter().take(3) {
+                            let (text, replay) = d(*idx);
+                            let body = json!({"property": prop, "signature": "hang|no progress and no source call", "detail": format!("no call returned for {} s while processing: {}", secs, text), "replay": replay});
+                            let t = serde_json::to_string_pretty(&body).unwrap();
+                            let path = format!("/verif/replays/{}-{}.json", prop, digest(&t));
+                            let _ = std::fs::write(&path, t);
+                            println!("VIOLATION property={} replay={}", prop, path);
+                            println!("  signature: hang|no progress and no source call");
+                            println!("  detail: no call returned for {} s while processing: {}", secs, text);
+                        }
+                        std::process::exit(1);
+                    }
+                    _ => {
+                        eprintln!("WATCHDOG: no progress for {} s (items in flight: {:?})", secs, stuck);
+                        std::process::exit(2);
+                    }
                 }
-                std::process::exit(2);
             }
         }
     });
